@@ -91,6 +91,18 @@ package poll
 //@ ensures result1 == nil ==> result0 != nil && result0.worker != nil && result0.server != nil
 //@ ensures result1 == nil ==> chancap(result0.worker.disconnect) == config.MaxConnections && chancap(result0.worker.connect) == config.MaxConnections && result0.worker.connections.max == config.MaxConnections
 //@ ensures result1 == nil ==> chancap(result0.sq) == config.Size && result0.worker.sq == result0.sq
+// a listener's stream lives as long as the listener stays connected: the server that carries the streams has no
+// read, write or idle deadline (a write deadline would cut every stream after that time while the registry still
+// hands messages to it)
+//@ ensures result1 == nil ==> result0.server.server != nil && result0.server.server.WriteTimeout == 0 && result0.server.server.ReadTimeout == 0 && result0.server.server.IdleTimeout == 0
+
+// Starting the server only serves: no field of the server (deadlines, handler, listener) is assigned here (frame).
+//@ func (*PollServer).Start
+//@ props C18
+//@ abstract-calls .*
+//@ requires s != nil && s.config != nil && s.server != nil && errors != nil && !closed(errors)
+//@ site store assert false
+//@ site call Serve assert l == s.listen
 
 // Enqueue accepts a submission exactly when it was put on the queue (C12: a submission reported accepted is
 // processed and answered by the worker; one reported refused is answered with queue-full by the caller; never
